@@ -26,28 +26,38 @@ Inductive ires :=
 | RWrote (d : bytes)      (* bytes handed to the actor's writer / returned as res.out *)
 | RErr (e : err)          (* returned error, identified by origin *)
 | RErrOther               (* an error of unknown origin *)
-| RPanic
-| RNone.                  (* did not return although the schedule ran to quiescence *)
+| RPanic                  (* a panic that the environment did not inject into this actor *)
+| RNone                   (* did not return although the schedule ran to quiescence *)
+| RWrErr (a : nat) (d : bytes)  (* returned the error of actor a's client writer; d = what the actor's OWN writer was handed *)
+| RCrash.                 (* the panic injected into its own work / own writer, recovered at the request boundary *)
 
 Record iobs := {
   o_res : ires;
   o_shared : bool;             (* the implementation reports the result as de-duplicated / never executed own work *)
   o_cancelled : bool;          (* the schedule cancelled this actor's context *)
-  o_ans : option answer        (* how the schedule answered this actor's own work, if it executed *)
+  o_ans : option answer;       (* how the schedule answered this actor's own work, if it executed *)
+  o_wr : option wans           (* how the schedule answered the Write on this actor's own client writer, if it was called *)
 }.
-Definition dobs : iobs := {| o_res := RNone; o_shared := false; o_cancelled := false; o_ans := None |}.
+Definition dobs : iobs := {| o_res := RNone; o_shared := false; o_cancelled := false; o_ans := None; o_wr := None |}.
 
-Inductive clause := CNoPanic | CReturns | CErrOrigin | CSharedKeyQuery | CTransparent.
+Inductive clause := CNoPanic | CReturns | CErrOrigin | CSharedKeyQuery | CTransparent
+                  | CWriteErr      (* a client writer's failure is reported to its owner and to nobody else *)
+                  | CRegistry.     (* no key stays registered once everybody has left *)
 
 Definition ans_eqb (a b : answer) : bool :=
   match a, b with
-  | AOk, AOk | AFailBody, AFailBody | ACanBody, ACanBody | AErrUp, AErrUp | AErrCtx, AErrCtx => true
+  | AOk, AOk | AFailBody, AFailBody | ACanBody, ACanBody | AErrUp, AErrUp | AErrCtx, AErrCtx | APanic, APanic => true
   | _, _ => false
   end.
 Definition ans_is (o : option answer) (w : answer) : bool :=
   match o with Some a => ans_eqb a w | None => false end.
+Definition wans_eqb (a b : wans) : bool :=
+  match a, b with WOk, WOk | WFail, WFail | WPanic, WPanic => true | _, _ => false end.
+Definition wr_is (o : option wans) (v : wans) : bool :=
+  match o with Some a => wans_eqb a v | None => false end.
 
 Section Check.
+Variable sub : bool.     (* true: the subgraph table (a follower of a leader whose load panicked gets res.out = nil) *)
 Variable reqs : list req.
 Variable os : list iobs.
 Definition rq (i : nat) : req := nth i reqs dreq.
@@ -60,6 +70,26 @@ Definition producer (i : nat) (w : answer) (j : nat) : bool :=
 
 Definition actors : list nat := seq 0 (length reqs).
 
+(* the bytes d were handed to actor i's writer (or returned to it as res.out) *)
+Definition check_wrote (i : nat) (d : bytes) : option clause :=
+  let r := rq i in
+  let o := ob i in
+  if o_shared o then
+    if negb (elig r) then Some CSharedKeyQuery
+    else if sub && bytes_eqb d [] && existsb (fun j => producer i APanic j) actors then None
+    else if negb (existsb (fun j => producer i AOk j || producer i AFailBody j || producer i ACanBody j) actors)
+    then Some CSharedKeyQuery
+    else if existsb (fun j => producer i AOk j) actors && bytes_eqb d (rok r) then None
+    else if existsb (fun j => producer i AFailBody j) actors && bytes_eqb d (rfail r) then None
+    else Some CTransparent
+  else
+    match o_ans o with
+    | Some AOk => if bytes_eqb d (rok r) then None else Some CTransparent
+    | Some AFailBody => if bytes_eqb d (rfail r) then None else Some CTransparent
+    | Some ACanBody => if o_cancelled o && bytes_eqb d (rcan r) then None else Some CTransparent
+    | _ => Some CTransparent
+    end.
+
 Definition check_actor (i : nat) : option clause :=
   let r := rq i in
   let o := ob i in
@@ -67,21 +97,9 @@ Definition check_actor (i : nat) : option clause :=
   | RPanic => Some CNoPanic
   | RNone => Some CReturns
   | RErrOther => Some CErrOrigin
-  | RWrote d =>
-    if o_shared o then
-      if negb (elig r) then Some CSharedKeyQuery
-      else if negb (existsb (fun j => producer i AOk j || producer i AFailBody j || producer i ACanBody j) actors)
-      then Some CSharedKeyQuery
-      else if existsb (fun j => producer i AOk j) actors && bytes_eqb d (rok r) then None
-      else if existsb (fun j => producer i AFailBody j) actors && bytes_eqb d (rfail r) then None
-      else Some CTransparent
-    else
-      match o_ans o with
-      | Some AOk => if bytes_eqb d (rok r) then None else Some CTransparent
-      | Some AFailBody => if bytes_eqb d (rfail r) then None else Some CTransparent
-      | Some ACanBody => if o_cancelled o && bytes_eqb d (rcan r) then None else Some CTransparent
-      | _ => Some CTransparent
-      end
+  | RCrash => if ans_is (o_ans o) APanic || wr_is (o_wr o) WPanic then None else Some CNoPanic
+  | RWrote d => if wr_is (o_wr o) WFail then Some CWriteErr else check_wrote i d
+  | RWrErr a d => if (a =? i) && wr_is (o_wr o) WFail then check_wrote i d else Some CWriteErr
   | RErr (ECtx a) => if (a =? i) && o_cancelled o then None else Some CErrOrigin
   | RErr (EUp a) =>
     if a =? i then (if ans_is (o_ans o) AErrUp then None else Some CErrOrigin)
@@ -96,21 +114,36 @@ Fixpoint first_fail (l : list nat) : option (nat * clause) :=
 
 Definition spec_b : option (nat * clause) := first_fail actors.
 
+(* the checker at quiescence: the per-actor clauses, then the registry: [reg] = the number of keys of this
+   schedule that are still registered in the table when nothing can move any more *)
+Definition spec_q_b (reg : nat) : option (nat * clause) :=
+  match spec_b with
+  | Some f => Some f
+  | None => if reg =? 0 then None else Some (0, CRegistry)
+  end.
+
 (* the same spec as a proposition about one actor's observed outcome *)
+Definition wrote_ok (i : nat) (d : bytes) : Prop :=
+  let r := rq i in
+  let o := ob i in
+  if o_shared o then
+    elig r = true /\
+    exists j w, j < length reqs /\ j <> i /\ rkey (rq j) = rkey (rq i) /\ elig (rq j) = true /\
+                o_shared (ob j) = false /\ o_ans (ob j) = Some w /\
+                ((w = AOk /\ d = rok r) \/ (w = AFailBody /\ d = rfail r) \/
+                 (w = APanic /\ d = [] /\ sub = true))
+  else
+    (o_ans o = Some AOk /\ d = rok r) \/ (o_ans o = Some AFailBody /\ d = rfail r) \/
+    (o_ans o = Some ACanBody /\ o_cancelled o = true /\ d = rcan r).
+
 Definition actor_ok (i : nat) : Prop :=
   let r := rq i in
   let o := ob i in
   match o_res o with
   | RPanic | RNone | RErrOther => False
-  | RWrote d =>
-    if o_shared o then
-      elig r = true /\
-      exists j w, j < length reqs /\ j <> i /\ rkey (rq j) = rkey (rq i) /\ elig (rq j) = true /\
-                  o_shared (ob j) = false /\ o_ans (ob j) = Some w /\
-                  ((w = AOk /\ d = rok r) \/ (w = AFailBody /\ d = rfail r))
-    else
-      (o_ans o = Some AOk /\ d = rok r) \/ (o_ans o = Some AFailBody /\ d = rfail r) \/
-      (o_ans o = Some ACanBody /\ o_cancelled o = true /\ d = rcan r)
+  | RCrash => o_ans o = Some APanic \/ o_wr o = Some WPanic
+  | RWrote d => o_wr o <> Some WFail /\ wrote_ok i d
+  | RWrErr a d => a = i /\ o_wr o = Some WFail /\ wrote_ok i d
   | RErr (ECtx a) => a = i /\ o_cancelled o = true
   | RErr (EUp a) =>
     (a = i /\ o_ans o = Some AErrUp) \/
